@@ -429,6 +429,7 @@ func TestVerifC14(t *testing.T) {
 		}
 	}
 	_ = errors.New
+	scs = append(scs, c14wsScenarios()...)
 	if hx.Main("C14", scs) == 2 {
 		t.Fatal("internal error")
 	}
